@@ -1,0 +1,204 @@
+//go:build verif
+
+package grpctunnel
+
+import (
+	"context"
+	"sync"
+	"time"
+
+	"google.golang.org/grpc/metadata"
+)
+
+// Verification hooks. They only exist with the "verif" build tag and do nothing
+// unless a harness installs the hook functions below (before any tunnel is
+// created; they are not synchronised).
+//
+// VerifYieldHook is called at boundaries between steps of multi-step procedures,
+// outside of this package's own locks unless noted at the call site; a harness
+// may block in it to hold the calling goroutine at that point.
+//
+// VerifEventHook is called at linearization points, possibly while a lock of
+// this package is held; it must not block.
+var (
+	VerifYieldHook func(point string, id int64)
+	VerifEventHook func(point string, id int64, a, b int64)
+)
+
+func verifYield(point string, id int64) {
+	if h := VerifYieldHook; h != nil {
+		h(point, id)
+	}
+}
+
+func verifEvent(point string, id int64, a, b int64) {
+	if h := VerifEventHook; h != nil {
+		h(point, id, a, b)
+	}
+}
+
+var (
+	verifMu      sync.Mutex
+	verifChanIDs = map[*tunnelChannel]int64{}
+	verifNextID  int64
+	verifServers = map[*tunnelServer]int64{}
+)
+
+// verifChanID gives each tunnel channel a small stable number for event logs.
+func verifChanID(c *tunnelChannel) int64 {
+	verifMu.Lock()
+	defer verifMu.Unlock()
+	id, ok := verifChanIDs[c]
+	if !ok {
+		verifNextID++
+		id = verifNextID
+		verifChanIDs[c] = id
+	}
+	return id
+}
+
+// VerifChannelID returns the number used for ch in hook events (0 if ch is not
+// a tunnel channel of this package).
+func VerifChannelID(ch TunnelChannel) int64 {
+	c, ok := ch.(*tunnelChannel)
+	if !ok {
+		return 0
+	}
+	return verifChanID(c)
+}
+
+// VerifForget drops the bookkeeping kept for finished channels and servers.
+func VerifForget() {
+	verifMu.Lock()
+	defer verifMu.Unlock()
+	verifChanIDs = map[*tunnelChannel]int64{}
+	verifServers = map[*tunnelServer]int64{}
+}
+
+func verifServerStart(s *tunnelServer) {
+	verifMu.Lock()
+	defer verifMu.Unlock()
+	verifNextID++
+	verifServers[s] = verifNextID
+}
+
+func verifServerEnd(s *tunnelServer) {
+	verifMu.Lock()
+	defer verifMu.Unlock()
+	delete(verifServers, s)
+}
+
+// VerifStreamTableSize reports the number of entries in the channel's stream
+// table, or -1 if ch is not a tunnel channel of this package.
+func VerifStreamTableSize(ch TunnelChannel) int {
+	c, ok := ch.(*tunnelChannel)
+	if !ok {
+		return -1
+	}
+	c.mu.RLock()
+	defer c.mu.RUnlock()
+	return len(c.streams)
+}
+
+// VerifChannelState reports the channel's id bookkeeping.
+func VerifChannelState(ch TunnelChannel) (lastStreamID int64, finished bool, revision int32) {
+	c, ok := ch.(*tunnelChannel)
+	if !ok {
+		return -1, false, -1
+	}
+	c.mu.RLock()
+	defer c.mu.RUnlock()
+	return c.lastStreamID, c.finished, int32(c.useRevision)
+}
+
+// VerifServerTable describes one tunnel server whose serve loop is running.
+type VerifServerTable struct {
+	ID       int64
+	Streams  int
+	LastSeen int64
+}
+
+// VerifServerTables reports the stream tables of all tunnel servers whose serve
+// loop has started and not yet returned.
+func VerifServerTables() []VerifServerTable {
+	verifMu.Lock()
+	svrs := make(map[*tunnelServer]int64, len(verifServers))
+	for s, id := range verifServers {
+		svrs[s] = id
+	}
+	verifMu.Unlock()
+	var out []VerifServerTable
+	for s, id := range svrs {
+		s.mu.RLock()
+		out = append(out, VerifServerTable{ID: id, Streams: len(s.streams), LastSeen: s.lastSeen})
+		s.mu.RUnlock()
+	}
+	return out
+}
+
+// VerifSender exposes the flow-control sender so that it can be stepped in
+// isolation.
+type VerifSender struct{ s sender }
+
+// VerifNewSender wraps newSender.
+func VerifNewSender(ctx context.Context, initialWindowSize uint32, sendFunc func(data []byte, totalSize uint32, first bool) error) VerifSender {
+	return VerifSender{newSender(ctx, initialWindowSize, sendFunc)}
+}
+
+// VerifNewSenderWithoutFlowControl wraps newSenderWithoutFlowControl.
+func VerifNewSenderWithoutFlowControl(sendFunc func(data []byte, totalSize uint32, first bool) error) VerifSender {
+	return VerifSender{newSenderWithoutFlowControl(sendFunc)}
+}
+
+func (v VerifSender) Send(data []byte) error { return v.s.send(data) }
+
+func (v VerifSender) UpdateWindow(add uint32) { v.s.updateWindow(add) }
+
+// Window reports the sender's current window and whether a wake-up is pending;
+// (0, false) for a sender without flow control.
+func (v VerifSender) Window() (window uint32, wakeupPending bool) {
+	if d, ok := v.s.(*defaultSender); ok {
+		return d.currentWindow.Load(), len(d.windowUpdates) > 0
+	}
+	return 0, false
+}
+
+// VerifReceiver exposes the flow-control receiver for items of type []byte.
+type VerifReceiver struct{ r receiver[[]byte] }
+
+// VerifNewReceiver wraps newReceiver; items are measured by their length.
+func VerifNewReceiver(updateWindow func(uint32), initialWindowSize uint32) VerifReceiver {
+	return VerifReceiver{newReceiver(func(b []byte) uint { return uint(len(b)) }, updateWindow, initialWindowSize)}
+}
+
+// VerifNewReceiverWithoutFlowControl wraps newReceiverWithoutFlowControl.
+func VerifNewReceiverWithoutFlowControl(ctx context.Context) VerifReceiver {
+	return VerifReceiver{newReceiverWithoutFlowControl[[]byte](ctx)}
+}
+
+func (v VerifReceiver) Accept(item []byte) error { return v.r.accept(item) }
+func (v VerifReceiver) Close()                   { v.r.close() }
+func (v VerifReceiver) Cancel()                  { v.r.cancel() }
+func (v VerifReceiver) Dequeue() ([]byte, bool)  { return v.r.dequeue() }
+
+// State reports the receiver's window and queue length; zeros for a receiver
+// without flow control.
+func (v VerifReceiver) State() (window uint32, queued int, closed, cancelled bool) {
+	if d, ok := v.r.(*defaultReceiver[[]byte]); ok {
+		d.mu.Lock()
+		defer d.mu.Unlock()
+		return d.currentWindow, d.items.Len(), d.closed, d.cancelled
+	}
+	return 0, 0, false, false
+}
+
+// VerifTimeoutFromHeaders exposes timeoutFromHeaders.
+func VerifTimeoutFromHeaders(md metadata.MD) (time.Duration, bool) {
+	return timeoutFromHeaders(md)
+}
+
+// Constants of the flow-control implementation.
+const (
+	VerifInitialWindowSize = initialWindowSize
+	VerifChunkMax          = chunkMax
+)
